@@ -70,7 +70,11 @@ def run(chk):
     cnt = unparse(adv[0].value) if adv else None
     t_def = [unparse(s.value) for s in FB.body if isinstance(s, ast.Assign) and unparse(s.targets[0]) == cnt]
     f_def = [unparse(s.value) for s in FB.orelse if isinstance(s, ast.Assign) and unparse(s.targets[0]) == cnt]
-    okcnt = okadv and t_def == [nname] and f_def == ['len(halos)']
+    if not f_def and adv:
+        # no else branch: the unfiltered count is the last value bound before the filter branch
+        pre = [unparse(s.value) for s in body[:body.index(FB)] if isinstance(s, ast.Assign) and unparse(s.targets[0]) == cnt]
+        f_def = pre[-1:]
+    okcnt = okadv and (t_def == [nname] or (cnt == nname and t_def == ['mask.sum()'])) and f_def == ['len(halos)']
     chk.check(okcnt, 'C03-R1', CAT, CLS + '_read_halo_info', 'one kept-count advances N_written and is recorded for the file', f'{cnt}: filter -> {t_def}, no filter -> {f_def}',
               f'N_written += {cnt}; N_halo_per_file[{iv}] = {unparse(rec[0].value) if rec else None}; {cnt} = {t_def} / {f_def}: row ranges and per-file counts disagree', node=adv[0] if adv else L)
     okord = okadv and body.index(FB) < body.index(adv[0]) and body.index(slot[0]) < body.index(FB) if slot and adv else False
@@ -177,13 +181,69 @@ def order_rules(chk):
     chk.check(ok_p, 'C03-R2', CAT, CLS + '_load_subsamples', 'particle file, cleaning file and halo row range selected by the same file position i', '',
               'particle files are not matched to halo row ranges by the same file position', node=ls)
     # R3
-    dup = [n for n in walk_no_nested(sp) if isinstance(n, ast.If) and unparse(n.test) == 'p == q' and any(isinstance(b, ast.Raise) for b in n.body)]
-    okdup = False
-    if len(dup) == 1:
-        inner = dup[0]._parent
-        outer = inner._parent if inner is not None else None
-        okdup = isinstance(inner, ast.For) and isinstance(outer, ast.For) and 'enumerate(path[i + 1:])' in unparse(inner.iter) and unparse(outer.iter) == 'enumerate(path)'
+    okdup = _all_pairs_compared(sp, 'path')
     chk.check(okdup, 'C03-R3', CAT, CLS + '_setup_file_paths', 'every pair of paths compared; duplicates raise', '', 'duplicate halo_info files are no longer rejected for every pair', node=sp)
     mix = [n for n in walk_no_nested(sp) if isinstance(n, ast.If) and 'groupdir == p.parents[1]' in unparse(n.test) and any(isinstance(b, ast.Raise) for b in n.body)]
     okmix = len(mix) == 1 and unparse(mix[0].test) == 'not groupdir == p.parents[1] and (not halo_lc)' and isinstance(mix[0]._parent, ast.For) and unparse(mix[0]._parent.iter) == 'path'
     chk.check(okmix, 'C03-R3', CAT, CLS + '_setup_file_paths', 'files from different catalogs raise', '', 'mixed-catalog file lists are no longer rejected', node=sp)
+
+
+def _all_pairs_compared(fn, arr):
+    """Is there a test `A[i] == A[j]` (through loop variables of enumerate / range / slices) followed by a raise, whose
+    two loops make (i, j) run over every pair 0 <= i < j < len(A)?  Also accepts len(set(A)) != len(A)."""
+    for n in walk_no_nested(fn):
+        if isinstance(n, ast.If) and any(isinstance(b, ast.Raise) for b in n.body) and isinstance(n.test, ast.Compare) and len(n.test.ops) == 1:
+            t = n.test
+            txt = unparse(t).replace(' ', '')
+            if isinstance(t.ops[0], (ast.NotEq, ast.Lt, ast.Gt)) and f'len(set({arr}))' in txt and f'len({arr})' in txt:
+                return True
+            if not isinstance(t.ops[0], ast.Eq):
+                continue
+            # enclosing loops, innermost first
+            loops = []
+            p_ = getattr(n, '_parent', None)
+            while p_ is not None and p_ is not fn:
+                if isinstance(p_, ast.For):
+                    loops.append(p_)
+                p_ = getattr(p_, '_parent', None)
+            if len(loops) < 2:
+                continue
+            inner, outer = loops[0], loops[1]
+
+            def describe(loop, outer_idx=None):
+                """-> (index name or None, element name or None, lower bound text relative to outer index, covers_to_end)"""
+                it, tg = loop.iter, loop.target
+                if isinstance(it, ast.Call) and dotted(it.func) == 'enumerate' and len(it.args) == 1 and isinstance(tg, ast.Tuple) and len(tg.elts) == 2 \
+                        and all(isinstance(e, ast.Name) for e in tg.elts):
+                    a = it.args[0]
+                    if unparse(a) == arr:
+                        return dict(idx=tg.elts[0].id, elem=tg.elts[1].id, lo='0', full=True, shifted=None)
+                    if isinstance(a, ast.Subscript) and unparse(a.value) == arr and isinstance(a.slice, ast.Slice) and a.slice.upper is None and a.slice.step is None \
+                            and a.slice.lower is not None:
+                        return dict(idx=None, elem=tg.elts[1].id, lo=unparse(a.slice.lower), full=True, shifted=tg.elts[0].id)
+                if isinstance(it, ast.Call) and dotted(it.func) == 'range' and isinstance(tg, ast.Name):
+                    args = [unparse(x) for x in it.args]
+                    if len(args) == 1 and args[0] == f'len({arr})':
+                        return dict(idx=tg.id, elem=None, lo='0', full=True, shifted=None)
+                    if len(args) == 2 and args[1] == f'len({arr})':
+                        return dict(idx=tg.id, elem=None, lo=args[0], full=True, shifted=None)
+                if isinstance(it, ast.Subscript) and unparse(it.value) == arr and isinstance(it.slice, ast.Slice) and it.slice.upper is None and it.slice.lower is not None \
+                        and isinstance(tg, ast.Name):
+                    return dict(idx=None, elem=tg.id, lo=unparse(it.slice.lower), full=True, shifted=None)
+                if unparse(it) == arr and isinstance(tg, ast.Name):
+                    return dict(idx=None, elem=tg.id, lo='0', full=True, shifted=None)
+                return None
+            do, di = describe(outer), describe(inner)
+            if do is None or di is None or do['lo'] != '0' or do['idx'] is None:
+                continue
+            if di['lo'].replace(' ', '') not in (f"{do['idx']}+1", f"1+{do['idx']}"):
+                continue
+
+            def is_elem(e, d):
+                if isinstance(e, ast.Name) and d['elem'] == e.id:
+                    return True
+                return isinstance(e, ast.Subscript) and unparse(e.value) == arr and d['idx'] is not None and unparse(e.slice) == d['idx']
+            l, r = t.left, t.comparators[0]
+            if (is_elem(l, do) and is_elem(r, di)) or (is_elem(l, di) and is_elem(r, do)):
+                return True
+    return False
